@@ -123,6 +123,18 @@ Fixpoint codes_of_str (s : string) : list nat :=
   | String a r => nat_of_ascii a :: codes_of_str r
   end.
 
+Fixpoint str_take (n : nat) (s : string) : string :=
+  match n, s with
+  | S n', String a r => String a (str_take n' r)
+  | _, _ => EmptyString
+  end.
+Fixpoint str_drop (n : nat) (s : string) : string :=
+  match n, s with
+  | S n', String _ r => str_drop n' r
+  | _, _ => s
+  end.
+Definition str_sub (i len : nat) (s : string) : string := str_take len (str_drop i s).
+
 (* ---------------------------------------------------------------- lemmas *)
 
 Lemma has_char_app c a b : has_char c (a ++ b) = has_char c a || has_char c b.
